@@ -44,7 +44,7 @@ structure ExcDesc where
   cls : String               -- `type(e).__name__`
   isException : Bool         -- `isinstance(e, Exception)`
   isSystemExit : Bool        -- `isinstance(e, SystemExit)`
-  isKeyError : Bool          -- `isinstance(e, builtins.KeyError)` (replaced by pedal's KeyError)
+  isKeyError : Bool          -- `type(e) is builtins.KeyError` (replaced by pedal's KeyError)
   hazards : List Hazard      -- how the object misbehaves when pedal touches it
   synLine : Option Nat       -- `e.lineno` of a SyntaxError naming the executed file or a student file
   frames : List Frame        -- traceback below `_execute`, outermost first
@@ -292,7 +292,8 @@ def chooseLine (strategy : LineStrategy) (e : ExcDesc) : Option Nat :=
       | none => lastLine .instructor e.frames
   | .unknown => none
 
-/-- `improve_builtin_exceptions`: builtin KeyError (and subclasses) become pedal's KeyError. -/
+/-- `improve_builtin_exceptions`: an exception whose class is exactly builtin KeyError becomes pedal's KeyError
+    (a student class derived from KeyError is reported as itself). -/
 def reportedCls (e : ExcDesc) : String := if e.isKeyError then "KeyError" else e.cls
 
 /-- `EXCEPTION_FF_MAP.get(type(self.exception), runtime_error)` - exact class, by name. -/
